@@ -607,7 +607,10 @@ static void run_stream(FILE *in)
       int o = atoi(t[1]);
       char *proj = dec(t[2]), *usr = dec(t[3]), *name = dec(t[4]), *sfx = dec(t[5]), *dl = argstr(t[6], dlbuf), *cm = argstr(t[7], cmbuf);
       econf_file *res = objs[o];
-      if (!res || (!res->root_prefix && res->parse_dirs_count == 0)) { printf("driver-error readconfig needs ROOT_PREFIX or PARSING_DIRS\n"); exit(3); }
+      /* without a handle (or with one that names no directories) the library looks below the REAL /usr, /run and /etc:
+         only allowed for project names that cannot exist there */
+      if ((!res || (!res->root_prefix && res->parse_dirs_count == 0)) && !(proj && !strncmp(proj, "verif-absent-", 13)))
+        { printf("driver-error readconfig needs ROOT_PREFIX or PARSING_DIRS\n"); exit(3); }
       begin_lib();
       econf_err e = cb_mode ? econf_readConfigWithCallback(&res, proj, usr, name, sfx, dl, cm, the_callback, &cb_data_token)
                             : econf_readConfig(&res, proj, usr, name, sfx, dl, cm);
